@@ -220,6 +220,7 @@ func classify(c *Case) (bool, []string) {
 	add(st.StreamErrs > 0, "stream-errors")
 	add(st.DrainCapped > 0, "drain-capped")
 	add(st.DCTChains > 0, "dct-chain-drained")
+	add(st.CCITTStreams > 0, "ccitt-drained")
 	add(st.RefsCapped, "refs-capped")
 	add(st.PagesDecoded > 0, "page-decoded")
 	add(st.PageErrs > 0, "page-errors")
